@@ -173,7 +173,7 @@ theorem scan_step {n : Nat} (hn : 0 < n) (W : Nat → Prop) (sh : Shared) (hlen 
   | c8 _ => exact absurd hinv id
   | c9 _ _ => exact absurd hinv id
   | c10 _ => exact absurd hinv id
-  | c11 => exact absurd hinv id
+  | c11 _ => exact absurd hinv id
   | a12 => exact absurd hinv id
 
 theorem threadRun_exhausted {n : Nat} (hn : 0 < n) :
